@@ -235,6 +235,11 @@ def gen_world(i, R, rng, sw):
         ops.append({"op": "set_yml", "patterns": [], "verbose": True})
     ops.append({"op": "scan", "nonce": G.nonce(rng), "spelling": rng.choice(("dot", "abs", "rel_parent", "dotdot", "rel_outside", "symlink")),
                 "target": target, "verbose": rng.random() < 0.25})
+    if rng.random() < 0.15:
+        # what an interrupted or older scan left in the cache directory must not matter to check
+        ops.append(rng.choice(({"op": "cache_truncate", "frac": rng.random()}, {"op": "cache_replace", "kind": "garbage"},
+                               {"op": "cache_replace", "kind": "empty"}, {"op": "cache_replace", "kind": "nested_wrong"},
+                               {"op": "cache_hibit", "field": "unit_name", "nth": 0})))
     parent = target.rsplit("/", 1)[0] if "/" in target else "."
     top = target.split("/")[0] if "/" in target else "."
     checks = [
